@@ -194,7 +194,7 @@ func taintFunction(f *ssa.Function, spec taintSpec) map[ssa.Value]bool {
 						}
 					}
 					// tainted data written into a receiver/first pointer argument (buffers, builders)
-					if !com.IsInvoke() && len(com.Args) > 0 && anyT(com.Args[1:]...) {
+					if sc := com.StaticCallee(); !com.IsInvoke() && sc != nil && !isSoyFunc(sc) && len(com.Args) > 0 && anyT(com.Args[1:]...) {
 						if _, ok := com.Args[0].Type().Underlying().(*types.Pointer); ok {
 							if mark(com.Args[0]) {
 								changed = true
